@@ -107,7 +107,9 @@ func genFaults(c *ctx) {
 	for i := 0; i < c.pick(6, 24); i++ {
 		b := &base{root: filepath.Join(work, fmt.Sprintf("b%d", i))}
 		b.cfg = e2eCfg{upload: i%2 == 0, binary: (i/2)%2 == 0, proto: protos[i%len(protos)], timeout: 2, quiet: true,
-			overwrite: i%3 == 0, escape: i%5 == 0, deadline: 25 * time.Second, startWait: 1500 * time.Millisecond}
+			overwrite: i%3 == 0, escape: i%5 == 0, deadline: 25 * time.Second, startWait: 1500 * time.Millisecond,
+			// without compression a changed payload byte survives decoding: the digest check is the only guard
+			compress: []string{"no", "", "no", "yes"}[(i/2)%4]}
 		rng := rand.New(rand.NewSource(c.rng.Int63()))
 		os.MkdirAll(filepath.Join(b.root, "s"), 0755)
 		for j, n := range []int{1500 + rng.Intn(3000), rng.Intn(200)} {
@@ -144,7 +146,22 @@ func genFaults(c *ctx) {
 		for k := 0; k < per; k++ {
 			dir := c.rng.Intn(2)
 			f := faultSpec{dir: dir, offset: int64(c.rng.Intn(len(b.wire[dir]))), kind: kinds[c.rng.Intn(len(kinds))], bit: uint(c.rng.Intn(8))}
-			cases = append(cases, &fcase{b: b, f: f, phase: phaseAt(b.wire[dir], f.offset)})
+			if k%2 == 0 {
+				// half of the faults are same-length substitutions inside file data, in the direction
+				// that carries it: the class of damage that only the digest comparison can catch
+				f.kind = "flip"
+				f.dir = dirS2C
+				if b.cfg.upload {
+					f.dir = dirC2S
+				}
+				for try := 0; try < 50; try++ {
+					f.offset = int64(c.rng.Intn(len(b.wire[f.dir])))
+					if ph := phaseAt(b.wire[f.dir], f.offset); ph == "DATA" || ph == "payload" {
+						break
+					}
+				}
+			}
+			cases = append(cases, &fcase{b: b, f: f, phase: phaseAt(b.wire[f.dir], f.offset)})
 		}
 	}
 	parallelDo(len(cases), 40, func(i int) {
